@@ -73,6 +73,10 @@ var feedTimeScheme int
 // c14InMessage: value of IsEntityInMessage on the trips of the feeds (what the journal records does not depend on it)
 var c14NotInMessage bool
 
+// c14OtherEntities: every feed also carries a vehicle position and an alert that have nothing to do with
+// the trip (a feed without trips is then not an empty feed)
+var c14OtherEntities bool
+
 func c14FeedTime(k int) time.Time {
 	switch feedTimeScheme {
 	case 1:
@@ -109,7 +113,10 @@ func specListString(l []specStop) string {
 // value schemes: 0 every value unique per feed; 1 all optional values absent; 2 times constant
 // across feeds, track unique; 3 track constant, times unique; 4 everything constant; 5 as 0 but
 // every update of every feed after the first is flagged NO_DATA, 6 as 0 but SKIPPED (the
-// journal records what the update carries whatever its schedule relationship)
+// journal records what the update carries whatever its schedule relationship); 7 as 0 but after the first
+// feed every event carries a delay and no time (the entry then has no time); 8 as 0 but the first update
+// of every list carries a stop_sequence and the others none (the list keeps the order of the update); 9 as 0 but every
+// departure lies before its arrival
 func c14Feed(k, sym int, absentValues bool) (*gtfs.Realtime, []specStop) {
 	scheme := 0
 	if absentValues {
@@ -135,6 +142,10 @@ func c14FeedList(k, sym int, scheme int, stops []string) (*gtfs.Realtime, []spec
 	}
 	t := c14FeedTime(k)
 	f := &gtfs.Realtime{CreatedAt: t}
+	if c14OtherEntities {
+		f.Vehicles = []gtfs.Vehicle{{ID: &gtfs.VehicleID{ID: "some other vehicle"}, IsEntityInMessage: true}}
+		f.Alerts = []gtfs.Alert{{ID: "some alert"}}
+	}
 	if sym == 0 {
 		return f, nil
 	}
@@ -168,11 +179,24 @@ func c14FeedList(k, sym int, scheme int, stops []string) (*gtfs.Realtime, []spec
 			_ = j
 			a := time.Unix(int64(c14T0+60*kt+1000+10*sj), 0).UTC()
 			d := time.Unix(int64(c14T0+60*kt+2000+10*sj), 0).UTC()
+			if scheme == 9 {
+				d = time.Unix(int64(c14T0+60*kt+500+10*sj), 0).UTC() // the departure lies before the arrival: recorded as sent
+			}
 			tr := fmt.Sprintf("trk%d.%d", ktr, sj)
 			u.Arrival = &gtfs.StopTimeEvent{Time: &a}
 			u.Departure = &gtfs.StopTimeEvent{Time: &d}
 			u.NyctTrack = &tr
 			sp.arr, sp.dep, sp.track = &a, &d, &tr
+		}
+		if k > 0 && scheme == 7 && !absentValues {
+			d := 45 * time.Second
+			u.Arrival = &gtfs.StopTimeEvent{Delay: &d}
+			u.Departure = &gtfs.StopTimeEvent{Delay: &d}
+			sp.arr, sp.dep = nil, nil
+		}
+		if scheme == 8 && j == 0 {
+			nine := uint32(9)
+			u.StopSequence = &nine // the current stop is given with its sequence number, the following ones by id only
 		}
 		if k > 0 && scheme == 5 {
 			u.ScheduleRelationship = gtfsrt.TripUpdate_StopTimeUpdate_NO_DATA
@@ -370,17 +394,18 @@ func c14Shallow(maxLen int) Harness {
 		for k := 0; k < n; k++ {
 			syms = append(syms, c.Free(fmt.Sprintf("feed[%d]", k), c14Symbols))
 		}
-		scheme := c.Choose("value_scheme", 7)
+		scheme := c.Choose("value_scheme", 10)
 		feedTimeScheme = c.Choose("feed_time_scheme", 4)
 		c14NotInMessage = c.Choose("trips_not_backed_by_an_entity_of_their_own", 2) == 1
-		defer func() { feedTimeScheme = 0; c14NotInMessage = false }()
+		c14OtherEntities = c.Choose("every_feed_also_carries_an_unrelated_vehicle_and_alert", 2) == 1
+		defer func() { feedTimeScheme = 0; c14NotInMessage = false; c14OtherEntities = false }()
 		absent := scheme == 1
 		var names []string
 		for _, s := range syms {
 			names = append(names, symName(s))
 		}
 		hist := strings.Join(names, " ")
-		c.Input(hash64(hist+fmt.Sprint(scheme, feedTimeScheme, c14NotInMessage)), n >= 2, func() string {
+		c.Input(hash64(hist+fmt.Sprint(scheme, feedTimeScheme, c14NotInMessage, c14OtherEntities)), n >= 2, func() string {
 			return fmt.Sprintf("history: %s (value scheme %d: 0 unique per feed, 1 optional values absent, 2 times constant/track changes, 3 track constant/times change, 4 all constant; feed time scheme %d: 0 increasing, 1 all equal, 2 no timestamps, 3 decreasing)", hist, scheme, feedTimeScheme)
 		})
 		_ = absent
@@ -692,7 +717,7 @@ func init() {
 	register(&Check{
 		ID:    "C14",
 		Level: "model_checking",
-		Rule: "the trip next to a companion trip that is present or absent per feed, lists of <= 2 stops over {A,B} or {M11N,M11S}: all histories of <= 3 feeds; lists of 9 / 17 / 33 / 65 stops: all histories of <= 3 feeds over 9 window symbols (omitted, all, all but the first, second half, last, first half, all + 3 new, second half + 3 new, no stops); one trip; feed symbols {trip omitted, unassigned [AB], assigned x every list over {A,B,C} of length <= 3 (40 lists)} = 42; ALL histories of <= 3 feeds (thorough <= 4), each under 7 value schemes (updates flagged NO_DATA / SKIPPED; unique per feed; optional values absent; times constant while the track changes; track constant while times change; all constant) and 4 feed-time schemes (60 s apart; all equal; no timestamps; decreasing), one deviation at a time, journal built for every prefix; plus explicit-state BFS to the fixpoint over histories starting with an assigning feed, states canonicalised to (stop id, marked?)* + trip-marked flag; " +
+		Rule: "the trip next to a companion trip that is present or absent per feed, lists of <= 2 stops over {A,B} or {M11N,M11S}: all histories of <= 3 feeds; lists of 9 / 17 / 33 / 65 stops: all histories of <= 3 feeds over 9 window symbols (omitted, all, all but the first, second half, last, first half, all + 3 new, second half + 3 new, no stops); one trip; feed symbols {trip omitted, unassigned [AB], assigned x every list over {A,B,C} of length <= 3 (40 lists)} = 42; ALL histories of <= 3 feeds (thorough <= 4), each under 10 value schemes (updates flagged NO_DATA / SKIPPED; unique per feed; optional values absent; times constant while the track changes; track constant while times change; all constant; delay-only events after the first feed; a stop_sequence on the first update only; departures before their arrivals), 4 feed-time schemes (60 s apart; all equal; no timestamps; decreasing), trips with / without an entity of their own, and feeds that also carry an unrelated vehicle and alert, one deviation at a time, journal built for every prefix; plus explicit-state BFS to the fixpoint over histories starting with an assigning feed, states canonicalised to (stop id, marked?)* + trip-marked flag; " +
 			"non-trivial = distinct histories of >= 2 feeds; oracle = nondeterministic specification automaton (set of admissible lists, refined by each observation)",
 		Assumptions: []string{"when the update's first stop is not in the list, or the update is empty, any prefix of the old list may be kept (the statement only constrains the case where the first stop is present)", "BFS state merging is sound because the journal code branches only on stop ids, nil-ness of marks and the assigned/active flags"},
 		Scenarios: func(tier string) []*Scenario {
